@@ -17,7 +17,7 @@
 (*   vermouth's merge_molecule), ApplyLinks (interaction dictionary,       *)
 (*   replace, scheduled removal, expand_excl), ApplyMods.                  *)
 (* Deviation flags Dev.* switch single steps to realistic wrong designs    *)
-(* (and to the repaired / open findings F7 F14 F15 F16 F17).               *)
+(* (and to the repaired / open findings F7 F14 F15 F30 F31 F32).               *)
 (*                                                                         *)
 (* Residues are identified by their position 1..n in residue-id order      *)
 (* (resid = start + pos - 1); node keys and insertion order are not part   *)
@@ -41,17 +41,19 @@ VARIABLES inp,      \* the input of this behaviour
           medges,   \* set of 2-sets of atom indices               (molecule.edges)
           gattr,    \* residue -> set of atom indices              (meta node attribute 'graph')
           added,    \* from_itp residues whose block is merged     (added_fragment_nodes)
-          cbase,    \* residue -> atom offset of its block copy    (multiblock_correspondence)
+          cbase,    \* residue -> atom offset of its block copy
+          fid,      \* from_itp residue -> number of its fragment  (node_to_fragment)
+          clist,    \* atom offsets of the merged block copies, in the order they were merged   (multiblock_correspondence)
           removed,  \* atoms removed by links                      (nodes_to_remove)
           molN,     \* molecule nrexcl
           err,      \* "" or the name of the error the step raised
           fired     \* open deviations that changed this behaviour
-vars == <<inp, pc, n2b, slice, bx, order, k, atoms, inters, medges, gattr, added, cbase, removed, molN, err, fired>>
+vars == <<inp, pc, n2b, slice, bx, order, k, atoms, inters, medges, gattr, added, cbase, fid, clist, removed, molN, err, fired>>
 
 (* deviation flag settings *)
 NoDev == [unsorted |-> FALSE, firstKeeps |-> FALSE, sliceAny |-> FALSE, offByOne |-> FALSE, renumber |-> FALSE,
           keepRemoved |-> FALSE, firstFragUnshifted |-> FALSE, treeEdges |-> FALSE, dedupKey |-> FALSE,
-          exMax |-> FALSE, exTagLost |-> FALSE, exCutoff |-> FALSE, modAnyRes |-> FALSE, versionInKey |-> FALSE]
+          exMax |-> FALSE, exTagLost |-> FALSE, exCutoff |-> FALSE, modAnyRes |-> FALSE, versionInKey |-> FALSE, fragIdOrder |-> FALSE]
 DevUnsorted == [NoDev EXCEPT !.unsorted = TRUE]
 DevFirstKeeps == [NoDev EXCEPT !.firstKeeps = TRUE]
 DevSliceAny == [NoDev EXCEPT !.sliceAny = TRUE]
@@ -59,15 +61,16 @@ DevOffByOne == [NoDev EXCEPT !.offByOne = TRUE]
 DevRenumber == [NoDev EXCEPT !.renumber = TRUE]
 DevKeepRemoved == [NoDev EXCEPT !.keepRemoved = TRUE]
 DevF14 == [NoDev EXCEPT !.firstFragUnshifted = TRUE]
-DevF17 == [NoDev EXCEPT !.treeEdges = TRUE]
-DevF16 == [NoDev EXCEPT !.dedupKey = TRUE]
+DevF31 == [NoDev EXCEPT !.treeEdges = TRUE]
+DevF30 == [NoDev EXCEPT !.dedupKey = TRUE]
 DevExMax == [NoDev EXCEPT !.exMax = TRUE]
 DevExTagLost == [NoDev EXCEPT !.exTagLost = TRUE]
 DevExCutoff == [NoDev EXCEPT !.exCutoff = TRUE]
 DevModAnyRes == [NoDev EXCEPT !.modAnyRes = TRUE]
 \* what the tree currently does: the open findings switched on (known_findings.d)
 DevVersionInKey == [NoDev EXCEPT !.versionInKey = TRUE]
-DevAsIs == [NoDev EXCEPT !.firstFragUnshifted = TRUE, !.treeEdges = TRUE, !.dedupKey = TRUE, !.versionInKey = TRUE]
+DevF32 == [NoDev EXCEPT !.fragIdOrder = TRUE]
+DevAsIs == [NoDev EXCEPT !.firstFragUnshifted = TRUE, !.treeEdges = TRUE, !.dedupKey = TRUE, !.fragIdOrder = TRUE]
 
 ProteinNames == {"GLY", "ALA", "CYS", "VAL", "LEU", "ILE", "MET", "PRO", "HYP", "ASN", "GLN", "ASP", "ASP0", "GLU", "GLU0",
                  "THR", "SER", "LYS", "LYS0", "ARG", "ARG0", "HIS", "HISH", "PHE", "TYR", "TRP"}
@@ -185,12 +188,18 @@ PairLess(p, q) == p[1] < q[1] \/ (p[1] = q[1] /\ p[2] < q[2])
 AppsOfLink(I, li, A, gat) ==
   LET l == FL(I)[li]
       ms == SetToSortSeq(ResMatches(I, l), PairLess)
-      ok(m) == Cardinality(NamedIn(A, gat[m[1]], l.a)) = 1 /\ (l.kind = "bond" => Cardinality(NamedIn(A, gat[m[2]], l.b)) = 1)
+      \* a link applies only where every atom it names is found exactly once
+      ok(m) == /\ Cardinality(NamedIn(A, gat[m[1]], l.a)) = 1
+               /\ (l.kind = "bond" => Cardinality(NamedIn(A, gat[m[2]], l.b)) = 1)
+               /\ (l.kind = "bond" /\ l.xb # "" => Cardinality(NamedIn(A, gat[m[2]], l.xb)) = 1)
       app(m) == LET ga == CHOOSE g \in NamedIn(A, gat[m[1]], l.a) : TRUE IN
                   IF l.kind = "bond"
                   THEN LET gb == CHOOSE g \in NamedIn(A, gat[m[2]], l.b) : TRUE IN
                          [lk |-> li, rep |-> <<>>, rem |-> <<>>,
-                          ints |-> <<[sec |-> l.sec, at |-> <<ga, gb>>, par |-> l.par, ver |-> "i1", occ |-> 1]>>]
+                          ints |-> <<[sec |-> l.sec, at |-> <<ga, gb>>, par |-> l.par, ver |-> "i1", occ |-> 1]>>
+                                   \o (IF l.xb = "" THEN <<>>      \* the same link may also exclude atom xb of the next residue from a
+                                       ELSE <<[sec |-> "exclusions", at |-> <<ga, CHOOSE g \in NamedIn(A, gat[m[2]], l.xb) : TRUE>>,
+                                               par |-> <<>>, ver |-> "i1", occ |-> 1]>>)]
                   ELSE IF l.kind = "remove"
                   THEN [lk |-> li, rep |-> <<>>, rem |-> <<ga>>, ints |-> <<>>]
                   ELSE [lk |-> li, rep |-> <<[a |-> ga, f |-> "ty", v |-> l.par[1]], [a |-> ga, f |-> "q", v |-> l.par[2]]>>, rem |-> <<>>, ints |-> <<>>]
@@ -291,40 +300,51 @@ NoTag == 0 - 1
 Init == /\ inp \in Inputs
         /\ pc = "match" /\ n2b = <<>> /\ slice = <<>> /\ bx = <<>> /\ order = <<>> /\ k = 1
         /\ atoms = <<>> /\ inters = <<>> /\ medges = {} /\ gattr = [i \in Pos(inp) |-> {}] /\ added = {}
-        /\ cbase = [i \in Pos(inp) |-> 0] /\ removed = {}
+        /\ cbase = [i \in Pos(inp) |-> 0] /\ fid = [i \in Pos(inp) |-> 0] /\ clist = <<>> /\ removed = {}
         /\ molN = 0 /\ err = "" /\ fired = {}
 
 (* ---- match_nodes_to_blocks ---- *)
-\* depth-first search trees of the residue graph (finding F17: only the tree edges of nx.dfs_edges are looked at)
+\* depth-first search trees of the residue graph (finding F31: only the tree edges of nx.dfs_edges are looked at)
 Anc(T, r, u, v) == u = v \/ u = r \/ v \notin Reach({e \in T : u \notin e}, {r})
 DfsTrees(I) == {T \in SUBSET GE(I) : /\ Cardinality(T) = I.n - 1
                                       /\ Reach(T, {1}) = Pos(I)
                                       /\ \E r \in Pos(I) : \A e \in GE(I) \ T : \E u \in e : \E v \in e \ {u} : Anc(T, r, u, v)}
-MatchWith(fe, perm) ==
+MinOf(S) == CHOOSE x \in S : \A y \in S : x <= y
+MatchWith(fe, perm, co) ==
   LET I == inp
       fr == {i \in Pos(I) : IsFrag(I, i)}
       comp(i) == Reach(fe, {i})
+      \* fragments are numbered component by component in the iteration order co of the components
+      copies(c) == Cardinality(c) \div NRes(Blk(I, MinOf(c)))
+      before(i) == SumTo([x \in DOMAIN co |-> IF x < IdxOf(co, comp(i)) THEN copies(co[x]) ELSE 0], Len(co))
       bad == \E i \in fr : Cardinality(comp(i)) % NRes(Blk(I, i)) # 0
       \* the nodes of a fragment in residue-id order (F15, repaired: in set-iteration order = perm) cut into copies
       seqOf(i) == IF Dev.sliceAny THEN perm[comp(i)] ELSE Sorted(comp(i))
       sl(i) == LET s == seqOf(i)  p == IdxOf(s, i)  L == NRes(Blk(I, i))  f == ((p - 1) \div L) * L IN SubSeq(s, f + 1, f + L)
   IN IF bad THEN /\ err' = "mismatch" /\ pc' = "done"
-                 /\ UNCHANGED <<n2b, slice>>
+                 /\ UNCHANGED <<n2b, slice, fid>>
      ELSE /\ n2b' = [i \in Pos(I) |-> BlkName(I, i)]
           /\ slice' = [i \in Pos(I) |-> IF i \in fr THEN sl(i) ELSE <<i>>]
+          /\ fid' = [i \in Pos(I) |-> IF i \in fr THEN before(i) + ((IdxOf(seqOf(i), i) - 1) \div NRes(Blk(I, i))) + 1 ELSE 0]
           /\ err' = "" /\ pc' = "tag"
+\* iteration orders of the fragment components: residue-id order of their first residue, or (finding F32) any order -
+\* nx.connected_components follows the insertion order of the nodes
+CompOrders(fe) ==
+  LET cs == {Reach(fe, {i}) : i \in {x \in Pos(inp) : IsFrag(inp, x)}} IN
+    IF Dev.fragIdOrder THEN Perms(cs) ELSE {SetToSortSeq(cs, LAMBDA c1, c2 : MinOf(c1) < MinOf(c2))}
 MatchNodes ==
   /\ pc = "match"
   /\ IF Dev.treeEdges
-     THEN \E T \in DfsTrees(inp) :
-            /\ MatchWith(FragEdges(inp) \cap T, <<>>)
-            /\ fired' = IF \E i \in Pos(inp) : Reach(FragEdges(inp) \cap T, {i}) # Comp(inp, i) THEN fired \cup {"F17"} ELSE fired
+     THEN \E T \in DfsTrees(inp) : \E co \in CompOrders(FragEdges(inp) \cap T) :
+            /\ MatchWith(FragEdges(inp) \cap T, <<>>, co)
+            /\ fired' = IF \E i \in Pos(inp) : IsFrag(inp, i) /\ Reach(FragEdges(inp) \cap T, {i}) # Comp(inp, i) THEN fired \cup {"F31"} ELSE fired
      ELSE IF Dev.sliceAny
      THEN \E perm \in [{Comp(inp, i) : i \in Pos(inp)} -> UNION {Perms(Comp(inp, i)) : i \in Pos(inp)}] :
             /\ \A c \in DOMAIN perm : ToSet(perm[c]) = c /\ Len(perm[c]) = Cardinality(c)
-            /\ MatchWith(FragEdges(inp), perm) /\ fired' = fired
-     ELSE MatchWith(FragEdges(inp), <<>>) /\ fired' = fired
-  /\ UNCHANGED <<inp, bx, order, k, atoms, inters, medges, gattr, added, cbase, removed, molN>>
+            /\ \E co \in CompOrders(FragEdges(inp)) : MatchWith(FragEdges(inp), perm, co)
+            /\ fired' = fired
+     ELSE \E co \in CompOrders(FragEdges(inp)) : MatchWith(FragEdges(inp), <<>>, co) /\ fired' = fired
+  /\ UNCHANGED <<inp, bx, order, k, atoms, inters, medges, gattr, added, cbase, clist, removed, molN>>
 
 (* ---- tag_exclusions ---- *)
 TagExclusions ==
@@ -340,12 +360,12 @@ TagExclusions ==
         \* add_blocks loops over the residue nodes sorted by residue id
         /\ \E o \in (IF Dev.unsorted THEN Perms(Pos(I)) ELSE {[i \in Pos(I) |-> i]}) : order' = o
   /\ pc' = "add" /\ k' = 1
-  /\ UNCHANGED <<inp, n2b, slice, atoms, inters, medges, gattr, added, cbase, removed, molN, err, fired>>
+  /\ UNCHANGED <<inp, n2b, slice, atoms, inters, medges, gattr, added, cbase, fid, clist, removed, molN, err, fired>>
 
 (* ---- add_blocks: one residue node per step ---- *)
 BxOf(nm) == bx[CHOOSE b \in DOMAIN bx : bx[b].name = nm]
 AddBlock ==
-  /\ pc = "add" /\ k <= Len(order)
+  /\ pc = "add" /\ k <= Len(order) /\ err = ""
   /\ LET I == inp
          r == order[k]
          b == BlockNamed(I, n2b[r])
@@ -354,8 +374,14 @@ AddBlock ==
          ofs == IF Dev.offByOne /\ base > 0 THEN base - 1 ELSE base
      IN IF r \in added
         THEN \* the block copy of this fragment is already merged: pick this residue's atoms out of the stored correspondence
-             /\ gattr' = [gattr EXCEPT ![r] = {g \in (cbase[r] + 1)..(cbase[r] + nb) : atoms[g].resid = Resid(I, r)}]
-             /\ UNCHANGED <<atoms, inters, medges, added, cbase, molN, err, fired>>
+             \* (finding F32: the correspondences are stored in merge order but looked up by fragment number)
+             IF Dev.fragIdOrder /\ fid[r] > Len(clist)
+             THEN /\ err' = "fragindex" /\ fired' = fired \cup {"F32"}
+                  /\ UNCHANGED <<atoms, inters, medges, gattr, added, cbase, clist, molN>>
+             ELSE LET cb == IF Dev.fragIdOrder THEN clist[fid[r]] ELSE cbase[r] IN
+                  /\ gattr' = [gattr EXCEPT ![r] = {g \in (cb + 1)..(cb + nb) : g <= Len(atoms) /\ atoms[g].resid = Resid(I, r)}]
+                  /\ fired' = IF cb # cbase[r] THEN fired \cup {"F32"} ELSE fired
+                  /\ UNCHANGED <<atoms, inters, medges, added, cbase, clist, molN, err>>
         ELSE LET \* offsets as merge_molecule computes them: residue id and charge group of the last atom present
                  roff == IF base = 0 THEN 0 ELSE atoms[base].resid
                  cgoff == IF base = 0 THEN 0 ELSE atoms[base].cg
@@ -374,13 +400,14 @@ AddBlock ==
                 /\ gattr' = [gattr EXCEPT ![r] = mine]
                 /\ added' = IF IsFrag(I, r) THEN added \cup ToSet(slice[r]) ELSE added
                 /\ cbase' = [i \in Pos(I) |-> IF IsFrag(I, r) /\ i \in ToSet(slice[r]) THEN base ELSE cbase[i]]
+                /\ clist' = IF IsFrag(I, r) THEN Append(clist, base) ELSE clist
                 /\ molN' = BxOf(b.name).nrexcl
                 /\ err' = IF base > 0 /\ molN # BxOf(b.name).nrexcl THEN "nrexcl" ELSE err
                 /\ fired' = IF k = 1 /\ IsFrag(I, r) /\ Dev.firstFragUnshifted /\ Resid(I, r) # 1 THEN fired \cup {"F14"} ELSE fired
   /\ k' = k + 1
-  /\ UNCHANGED <<inp, pc, n2b, slice, bx, order, removed>>
-AddDone == /\ pc = "add" /\ k > Len(order) /\ pc' = (IF err = "" THEN "links" ELSE "done")
-           /\ UNCHANGED <<inp, n2b, slice, bx, order, k, atoms, inters, medges, gattr, added, cbase, removed, molN, err, fired>>
+  /\ UNCHANGED <<inp, pc, n2b, slice, bx, order, fid, removed>>
+AddDone == /\ pc = "add" /\ (k > Len(order) \/ err # "") /\ pc' = (IF err = "" THEN "links" ELSE "done")
+           /\ UNCHANGED <<inp, n2b, slice, bx, order, k, atoms, inters, medges, gattr, added, cbase, fid, clist, removed, molN, err, fired>>
 
 (* ---- ApplyLinks.run_molecule ---- *)
 \* interaction dictionary keyed by (section, atoms, version): last writer wins
@@ -407,11 +434,11 @@ ApplyLinks ==
          A1 == ApplyReps(atoms, FlattenSeq([j \in DOMAIN apps |-> apps[j].rep]))
          R == UNION {ToSet(apps[j].rem) : j \in DOMAIN apps}
          lseq == FlattenSeq([j \in DOMAIN apps |-> apps[j].ints])
-         \* finding F16: the images of the block interactions go through the same dictionary, so images with equal
+         \* finding F30: the images of the block interactions go through the same dictionary, so images with equal
          \* (section, atoms, version) collapse; intended: only link interactions replace
          d0 == IF Dev.dedupKey THEN DictPut(<<>>, inters) ELSE SelectSeq(inters, LAMBDA x : \A y \in ToSet(lseq) : Key(y) # Key(x))
          d1 == IF Dev.dedupKey THEN DictPut(d0, lseq) ELSE d0 \o DictPut(<<>>, lseq)
-         \* finding "removed-node-key-equals-version" (proposed under C02): the write-back loop tests the members of the
+         \* finding "removed-node-key-equals-version" (repaired, commit 5922ace): the write-back loop tested the members of the
          \* dictionary key (0-based atom keys ..., version number) instead of the atoms
          verHit(x) == Dev.versionInKey /\ \E v \in 1..9 : x.ver = VerTags[v] /\ (v + 1) \in R
          d2 == IF Dev.keepRemoved THEN d1 ELSE SelectSeq(d1, LAMBDA x : ~Touches(x, R) /\ ~verHit(x))
@@ -427,10 +454,10 @@ ApplyLinks ==
              /\ gattr' = [i \in Pos(I) |-> gattr[i] \ R]
              /\ inters' = d2 \o [x \in DOMAIN genSeq |-> LET p == genSeq[x]  a == CHOOSE a \in p : \A o \in p : a <= o IN
                                     [sec |-> "exclusions", at |-> <<a, CHOOSE o \in p : o # a>>, par |-> <<>>, ver |-> "gen", occ |-> 1]]
-             /\ fired' = (IF Dev.dedupKey /\ Len(d0) # Len(inters) THEN fired \cup {"F16"} ELSE fired)
+             /\ fired' = (IF Dev.dedupKey /\ Len(d0) # Len(inters) THEN fired \cup {"F30"} ELSE fired)
                           \cup (IF \E j \in DOMAIN d1 : verHit(d1[j]) /\ ~Touches(d1[j], R) THEN {"removed-node-key-equals-version"} ELSE {})
              /\ err' = err /\ pc' = "mods"
-  /\ UNCHANGED <<inp, n2b, slice, bx, order, k, added, cbase, molN>>
+  /\ UNCHANGED <<inp, n2b, slice, bx, order, k, added, cbase, fid, clist, molN>>
 
 (* ---- ApplyModifications.run_molecule ---- *)
 RECURSIVE ModFold(_, _, _, _)
@@ -454,7 +481,7 @@ ApplyMods ==
   /\ pc = "mods"
   /\ LET r == ModFold(inp, atoms, inters, 1) IN atoms' = r.atoms /\ inters' = r.inters
   /\ pc' = "done"
-  /\ UNCHANGED <<inp, n2b, slice, bx, order, k, medges, gattr, added, cbase, removed, molN, err, fired>>
+  /\ UNCHANGED <<inp, n2b, slice, bx, order, k, medges, gattr, added, cbase, fid, clist, removed, molN, err, fired>>
 
 Next == MatchNodes \/ TagExclusions \/ AddBlock \/ AddDone \/ ApplyLinks \/ ApplyMods
 Spec == Init /\ [][Next]_vars
